@@ -75,9 +75,9 @@ double Vector::Dot(const Vector& rhs) const
 
 Vector Vector::Cross(const Vector& rhs) const
 {
-	if(dimension != 3)
+	if(dimension != 3 || rhs.Size() != 3)
 	{
-		std::cerr << "Error in libphysica::Vector Vector::Cross(): Cross product only defined for 3 dimensions, not " << dimension << "." << std::endl;
+		std::cerr << "Error in libphysica::Vector Vector::Cross(): Cross product only defined for 3 dimensions, not " << dimension << " and " << rhs.Size() << "." << std::endl;
 		std::exit(EXIT_FAILURE);
 	}
 	else
@@ -196,6 +196,11 @@ Vector Vector::operator=(Vector v)
 
 Vector& Vector::operator+=(const Vector& v)
 {
+	if(dimension != v.dimension)
+	{
+		std::cerr << "Error in libphysica::Vector::operator+=(const Vector& v): Vectors are of differing dimensions (" << dimension << " and " << v.dimension << ")." << std::endl;
+		std::exit(EXIT_FAILURE);
+	}
 	for(unsigned int i = 0; i < dimension; i++)
 		components[i] += v[i];
 	return *this;
@@ -203,6 +208,11 @@ Vector& Vector::operator+=(const Vector& v)
 
 Vector& Vector::operator-=(const Vector& v)
 {
+	if(dimension != v.dimension)
+	{
+		std::cerr << "Error in libphysica::Vector::operator-=(const Vector& v): Vectors are of differing dimensions (" << dimension << " and " << v.dimension << ")." << std::endl;
+		std::exit(EXIT_FAILURE);
+	}
 	for(unsigned int i = 0; i < dimension; i++)
 		components[i] -= v[i];
 	return *this;
@@ -828,7 +838,7 @@ std::vector<Vector> Matrix::Eigen_Vectors() const
 // Overloading brackets
 std::vector<double>& Matrix::operator[](const unsigned int i)
 {
-	if(i < 0 || i > (rows - 1))
+	if(i < 0 || i >= rows)
 	{
 		std::cerr << "Error in libphysica::Matrix::operator[](): Index i=" << i << " is out of bound [" << 0 << "," << (rows - 1) << "]." << std::endl;
 		std::exit(EXIT_FAILURE);
@@ -838,7 +848,7 @@ std::vector<double>& Matrix::operator[](const unsigned int i)
 }
 const std::vector<double>& Matrix::operator[](const unsigned int i) const
 {
-	if(i < 0 || i > (rows - 1))
+	if(i < 0 || i >= rows)
 	{
 		std::cerr << "Error in libphysica::Matrix::operator[](): Index i=" << i << " is out of bound [" << 0 << "," << (rows - 1) << "]." << std::endl;
 		std::exit(EXIT_FAILURE);
